@@ -17,3 +17,6 @@ Proof. reflexivity. Qed.
    engine whose extension its name carries) *)
 Lemma bridge_engine_forwarded : gen_engine_forwarded_everywhere = true.
 Proof. reflexivity. Qed.
+
+Lemma bridge_dtype_rule : gen_dtype_rule = model_dtype_rule.
+Proof. reflexivity. Qed.
